@@ -506,7 +506,8 @@ func (t *Table) updateVPNIdx(u *Update, newPath, oldPath *Path) {
 			t.vpnIdx.UnregisterPath(oldPath)
 			t.vpnIdx.RegisterPath(newPath)
 		}
-		return
+		// No return: the change of an ADD-PATH path can make a path without
+		// identifier (from another source) the best one, or take that role away.
 	}
 	// No-add-path: track only the best path per NLRI.
 	// KnownPathList is sorted by computeKnownBestPath, so [0] is the best.
@@ -518,8 +519,13 @@ func (t *Table) updateVPNIdx(u *Update, newPath, oldPath *Path) {
 		newBest = u.KnownPathList[0]
 	}
 	if oldBest != newBest {
-		t.vpnIdx.UnregisterPath(oldBest)
-		t.vpnIdx.RegisterPath(newBest)
+		// ADD-PATH paths are entries of their own as long as they exist.
+		if oldBest != nil && oldBest.RemoteID() == 0 {
+			t.vpnIdx.UnregisterPath(oldBest)
+		}
+		if newBest != nil && newBest.RemoteID() == 0 {
+			t.vpnIdx.RegisterPath(newBest)
+		}
 	}
 }
 
